@@ -2,7 +2,7 @@
    GOP replay.  Statements only (labels as in C01). *)
 From Lal Require Import Common.LBytes Group.GroupMsg Group.GroupGopCache Group.GroupFanout
   Group.GroupGopCacheProofs Group.GroupFanoutProofs Group.GroupFanoutCacheProofs Group.GroupFanoutAdmitProofs
-  Group.GroupFanoutRtspProofs.
+  Group.GroupFanoutMergeProofs Group.GroupFanoutRtspProofs Group.GroupFanoutHeaderProofs.
 Open Scope N_scope.
 
 (* After ANY history the RTMP and HTTP-FLV caches hold exactly what the
@@ -42,21 +42,21 @@ Print Assumptions c02_ring_refines_queue.
 
 (* admission of a fresh session, per protocol: prologue, then the live message
    unless it has to wait for a key frame (boundary for TS) *)
-Theorem c02_fresh_flv : forall cache key lt c,
+Theorem c02_fresh_flv : forall cache key hdr lt c,
   c_kind c = KFlv -> c_fresh c = true ->
   let wait1 := if Nat.ltb 0 (gc_count cache) then false else c_wait c in
-  let c' := flv_step cache key lt c in
+  let c' := flv_step cache key hdr lt c in
   c_fresh c' = false /\ c_wait c' = (wait1 && negb key) /\
-  c_out c' = c_out c ++ prologue cache false ++ (if wait1 && negb key then [] else [lt]).
+  c_out c' = c_out c ++ prologue cache false ++ (if wait1 && negb key && negb hdr then [] else [lt]).
 Proof. exact flv_fresh_visit. Qed.
 Print Assumptions c02_fresh_flv.
 
-Theorem c02_fresh_rtmp : forall cache key c,
+Theorem c02_fresh_rtmp : forall cache key hdr lc c,
   c_fresh c = true ->
   let wait1 := if Nat.ltb 0 (gc_count cache) then false else c_wait c in
-  let '(c', flushed) := rtmp_visit cache key c in
+  let '(c', flushed) := rtmp_visit cache key hdr lc c in
   flushed = true /\ c_fresh c' = false /\ c_wait c' = (wait1 && negb key) /\
-  c_out c' = c_out c ++ prologue cache false.
+  c_out c' = c_out c ++ prologue cache false ++ (if wait1 && negb key && hdr then [lc] else []).
 Proof. exact rtmp_fresh_visit. Qed.
 Print Assumptions c02_fresh_rtmp.
 
@@ -76,18 +76,21 @@ Theorem c02_fresh_ts : forall cache pat boundary lt c,
 Proof. exact ts_fresh_visit. Qed.
 Print Assumptions c02_fresh_ts.
 
-(* a session that waits for a key frame receives nothing until one comes, and then that key frame *)
-Theorem c02_waiting_flv : forall cache key lt c,
+(* a session that waits for a key frame receives no FRAME until one comes, and then that key
+   frame; metadata and sequence headers ([hdr]) reach it at once and leave it waiting (fix F-08i) *)
+Theorem c02_waiting_flv : forall cache key hdr lt c,
   c_kind c = KFlv -> c_fresh c = false -> c_wait c = true ->
-  let c' := flv_step cache key lt c in
-  c_fresh c' = false /\ c_wait c' = negb key /\ c_out c' = c_out c ++ (if key then [lt] else []).
+  let c' := flv_step cache key hdr lt c in
+  c_fresh c' = false /\ c_wait c' = negb key /\ c_out c' = c_out c ++ (if key || hdr then [lt] else []).
 Proof. exact flv_waiting_visit. Qed.
 Print Assumptions c02_waiting_flv.
 
-Theorem c02_waiting_rtmp : forall cache key c,
+(* RTMP: the key frame itself follows through the broadcast writer / merge writer once the wait is over *)
+Theorem c02_waiting_rtmp : forall cache key hdr lc c,
   c_fresh c = false -> c_wait c = true ->
-  let '(c', flushed) := rtmp_visit cache key c in
-  flushed = key /\ c_fresh c' = false /\ c_wait c' = negb key /\ c_out c' = c_out c.
+  let '(c', flushed) := rtmp_visit cache key hdr lc c in
+  flushed = key /\ c_fresh c' = false /\ c_wait c' = negb key /\
+  c_out c' = c_out c ++ (if negb key && hdr then [lc] else []).
 Proof. exact rtmp_waiting_visit. Qed.
 Print Assumptions c02_waiting_rtmp.
 
@@ -117,13 +120,110 @@ Definition amsg (b0 b1 tail : N) : rmsg := {| rm_type := 8; rm_ts := 0; rm_paylo
 Definition out_of (cf : cfg) (h : list ev) (id : N) : option (list label) :=
   option_map c_out (find_sub (run cf h) id).
 
-(* F-08(i): an AAC sequence header published while the consumer waits for a
-   key frame is never delivered, yet AAC frames are *)
-Lemma c02_header_while_waiting_refuted :
-  let h := [EvInStart; EvPublish (vmsg 23 0 1); EvJoin KFlv 1; EvPublish (amsg 175 0 2);
-            EvPublish (vmsg 23 1 3); EvPublish (amsg 175 1 4)] in
-  mclass_of (amsg 175 0 2) = MAsh /\ out_of (cfg0 0) h 1 = Some [LT 0; LT 2; LT 3].
-Proof. vm_compute. split; reflexivity. Qed.
+(* ---------------------------------------------------------------------- *)
+(* Header in force (F-08i repaired in lal; F-08ii repaired earlier).
+
+   "In force" is a function of the history alone ([irun], Group/GroupFanoutHeaderProofs.v):
+   the content of the latest video (AAC) sequence header published since the
+   current input started; the end of the input (or Dispose) forgets it. *)
+Definition vsh_in_force (h : list ev) : option bytes := is_v (irun h).
+Definition ash_in_force (h : list ev) : option bytes := is_a (irun h).
+(* the content of the last video / AAC sequence header in a stream of units of history h *)
+Definition last_hdrs (h : list ev) (out : list label) : option bytes * option bytes := hdrs (is_log (irun h)) hd0 out.
+
+Theorem c02_in_force_def : forall h,
+  (forall m, vsh_in_force (h ++ [EvPublish m]) =
+     if Nat.eqb (length (rm_payload m)) 0 then vsh_in_force h
+     else match mclass_of m with MVsh => Some (rm_payload m) | _ => vsh_in_force h end) /\
+  (forall m, ash_in_force (h ++ [EvPublish m]) =
+     if Nat.eqb (length (rm_payload m)) 0 then ash_in_force h
+     else match mclass_of m with MAsh => Some (rm_payload m) | _ => ash_in_force h end) /\
+  (is_in (irun h) = true -> vsh_in_force (h ++ [EvInStop]) = None /\ ash_in_force (h ++ [EvInStop]) = None) /\
+  (vsh_in_force (h ++ [EvDispose]) = None /\ ash_in_force (h ++ [EvDispose]) = None) /\
+  (forall k id, vsh_in_force (h ++ [EvJoin k id]) = vsh_in_force h /\ ash_in_force (h ++ [EvJoin k id]) = ash_in_force h) /\
+  map (fun e : entry => fst (fst e)) (is_log (irun h)) = pubs h.
+Proof.
+  intro h. unfold vsh_in_force, ash_in_force.
+  split; [intro m; rewrite irun_app; cbn [fold_left istep]; destruct (Nat.eqb _ 0); reflexivity|].
+  split; [intro m; rewrite irun_app; cbn [fold_left istep]; destruct (Nat.eqb _ 0); reflexivity|].
+  split; [intro Hi; rewrite !irun_app; cbn [fold_left istep]; rewrite Hi; split; reflexivity|].
+  split; [rewrite !irun_app; split; reflexivity|].
+  split; [intros k id; rewrite !irun_app; split; reflexivity|apply irun_log_pubs].
+Qed.
+Print Assumptions c02_in_force_def.
+
+(* ANY history, split at the publication of any frame m (neither metadata nor a
+   sequence header); any RTMP / HTTP-FLV consumer that ever existed (attached or
+   gone; the cache of its protocol being fed, i.e. the protocol enabled); its
+   stream split at the unit of m: the last video (AAC) sequence header it had
+   received before that unit has the content of the one in force when m was
+   published.  No exclusion: headers that change while the consumer waits for a
+   key frame, while GOPs are cached, across inputs, with the merge writer on. *)
+Theorem c02_header_in_force : forall cf h1 m h2 c a l b,
+  let h := h1 ++ EvPublish m :: h2 in
+  In c (all_consumers (run cf h)) ->
+  (c_kind c = KRtmp /\ cf_rtmp_enable cf = true) \/ (c_kind c = KFlv /\ cf_flv_enable cf = true) ->
+  c_out c = a ++ l :: b -> label_idx l = Some (length (pubs h1)) -> is_hdr_msg m = false ->
+  (rm_type m = type_video -> forall p, vsh_in_force h1 = Some p -> fst (last_hdrs h a) = Some p) /\
+  (rm_type m = type_audio -> forall p, ash_in_force h1 = Some p -> snd (last_hdrs h a) = Some p).
+Proof. exact header_in_force. Qed.
+Print Assumptions c02_header_in_force.
+
+(* ... and at every moment every attached consumer past its prologue - admitted
+   or still waiting for a key frame - holds the headers in force as the last ones
+   it was sent (counting, for an admitted RTMP session, what the merge writer still
+   keeps for it): what the repair of F-08i establishes. *)
+Theorem c02_headers_in_step : forall cf h c,
+  In c (g_subs (run cf h)) ->
+  (c_kind c = KRtmp /\ cf_rtmp_enable cf = true) \/ (c_kind c = KFlv /\ cf_flv_enable cf = true) ->
+  c_fresh c = false ->
+  (forall p, vsh_in_force h = Some p -> fst (last_hdrs h (vout (run cf h) c)) = Some p) /\
+  (forall p, ash_in_force h = Some p -> snd (last_hdrs h (vout (run cf h) c)) = Some p).
+Proof. intros cf h c Hin Hs Hf. exact (proj2 (headers_in_step cf h c Hin Hs Hf)). Qed.
+Print Assumptions c02_headers_in_step.
+
+(* F-08(i), FIXED (lal): an AAC sequence header published while the consumers wait
+   for a key frame is delivered at once, the wait goes on (the inter frame 2 is withheld) *)
+Lemma c02_header_while_waiting_delivered :
+  let h := [EvInStart; EvPublish (vmsg 23 0 1); EvJoin KFlv 1; EvJoin KRtmp 2; EvPublish (amsg 175 0 2);
+            EvPublish (vmsg 39 1 5); EvPublish (vmsg 23 1 3); EvPublish (amsg 175 1 4)] in
+  mclass_of (amsg 175 0 2) = MAsh /\ out_of (cfg0 0) h 1 = Some [LT 0; LT 1; LT 3; LT 4] /\
+  out_of (cfg0 0) h 2 = Some [LC 0; LC 1; LC 3; LC 4].
+Proof. vm_compute. repeat split; reflexivity. Qed.
+
+(* the pinned wait rule (before the repair), as a variant of the HTTP-FLV visit: a
+   waiting session is skipped for everything but a key frame - the header is lost *)
+Definition flv_step_pinned (cache : gop_cache label) (key : bool) (lt : label) (c : consumer) : consumer :=
+  if negb (ckind_eqb (c_kind c) KFlv) then c
+  else
+    let c1 := if c_fresh c then
+                let c' := c_append c (prologue cache false) in
+                c_set c' false (if Nat.ltb 0 (gc_count cache) then false else c_wait c')
+              else c in
+    if c_wait c1 then (if key then c_set (c_append c1 [lt]) (c_fresh c1) false else c1) else c_append c1 [lt].
+Lemma c02_header_while_waiting_pinned_refuted : forall cache lt c,
+  c_kind c = KFlv -> c_fresh c = false -> c_wait c = true ->
+  flv_step_pinned cache false lt c = c /\ c_out (flv_step cache false true lt c) = c_out c ++ [lt].
+Proof.
+  intros cache lt c Hk Hf Hw. unfold flv_step_pinned, flv_step. rewrite Hk, Hf, Hw. split; reflexivity.
+Qed.
+
+(* non-vacuity of c02_header_in_force: the video sequence header changes (content 9 instead
+   of 1) while an HTTP-FLV and an RTMP consumer (merge writer on) wait for a key frame; the
+   key frame that ends the wait was published under the new header, and that is the last
+   header both had received before it *)
+Example c02_header_in_force_nonvacuous :
+  let cf := {| cf_rtmp_enable := true; cf_rtmp_gop := 0; cf_rtmp_max := 0; cf_flv_enable := true; cf_flv_gop := 0; cf_flv_max := 0;
+               cf_ts_gop := 0; cf_ts_max := 0; cf_merge := 30; cf_record_flv := false; cf_chunk := 4096; cf_ext_at_limit := true;
+               cf_rtsp_wait := true; cf_hook := false; cf_record_ts := false |} in
+  let h1 := [EvInStart; EvPublish (vmsg 23 0 1); EvJoin KFlv 1; EvJoin KRtmp 2; EvPublish (vmsg 39 1 5); EvPublish (vmsg 23 0 9)] in
+  let m := vmsg 23 1 3 in
+  let h2 := [EvPublish (vmsg 39 1 4); EvPublish (vmsg 39 1 6)] in
+  let h := h1 ++ EvPublish m :: h2 in
+  vsh_in_force h1 = Some [23; 0; 0; 0; 0; 9] /\ is_hdr_msg m = false /\ length (pubs h1) = 3%nat /\
+  out_of cf h 1 = Some ([LT 0; LT 2] ++ LT 3 :: [LT 4; LT 5]) /\ fst (last_hdrs h [LT 0; LT 2]) = Some [23; 0; 0; 0; 0; 9] /\
+  out_of cf h 2 = Some ([LC 0; LC 2] ++ LC 3 :: [LC 4]) /\ fst (last_hdrs h [LC 0; LC 2]) = Some [23; 0; 0; 0; 0; 9].
+Proof. vm_compute. repeat split; reflexivity. Qed.
 
 (* F-08(ii), FIXED (lal): GOPs cached under the first sequence header are
    dropped when a header with other content arrives; an identical header keeps them *)
